@@ -7,11 +7,13 @@ import sys
 
 from core import MODEL_NAMES, model_class
 
-PLAYER_KINDS = ["int", "float", "bool", "None", "str", "tuple", "list", "dict", "object", "duck", "teamrating"]
-TEAM_KINDS = ["tuple", "None", "int", "str", "dict", "bare_rating", "empty"]
-TEAMS_KINDS = ["tuple", "dict", "frozenset", "str", "int", "None", "generator", "len0", "len1"]
-SEL_NONLIST = ["int", "float", "str", "tuple", "dict", "set", "bytes", "range", "True"]
-SEL_ELEM = ["str", "None", "list", "tuple", "dict", "object"]
+PLAYER_KINDS = ["int", "float", "bool", "None", "str", "tuple", "list", "dict", "object", "duck", "teamrating",
+                "class", "model", "function", "exception", "generator", "bytes", "frozenset_of_ratings", "range", "module", "nested_team"]
+TEAM_KINDS = ["tuple", "None", "int", "str", "dict", "bare_rating", "empty",
+              "deque", "namedtuple", "dict_values", "map", "str1", "bytes", "generator", "set"]
+TEAMS_KINDS = ["tuple", "dict", "frozenset", "str", "int", "None", "generator", "len0", "len1", "deque", "dict_values", "map"]
+SEL_NONLIST = ["int", "float", "str", "tuple", "dict", "set", "bytes", "range", "True", "array", "deque", "generator", "map", "dict_values"]
+SEL_ELEM = ["str", "None", "list", "tuple", "dict", "object", "bytes", "class"]
 CALLS = ["rate", "win", "draw", "rank"]
 
 
@@ -77,6 +79,12 @@ def grammar(sizes, model_name, calls=CALLS, positions="all", rng=None):
         if sel and tpr:
             for _ in range(40):
                 out.append(dict(rng.choice(tpr), **{"and": rng.choice(sel)}))
+        # (c) both selectors malformed, each in its own way
+        rk = [d for d in sel if d["arg"] == "ranks" and not d.get("other")]
+        sc = [d for d in sel if d["arg"] == "scores" and not d.get("other")]
+        if rk and sc:
+            for _ in range(24):
+                out.append(dict(rng.choice(rk), **{"and": rng.choice(sc)}))
     return out
 
 
@@ -113,6 +121,26 @@ def _player_value(kind, model_name, like, team):
     if kind.startswith("foreign:"):
         other = model_class(kind.split(":", 1)[1])()
         return other.rating(mu=mu, sigma=sigma, name="foreign")
+    if kind == "class":
+        return type(like)
+    if kind == "model":
+        return model_class(model_name)()
+    if kind == "function":
+        return _player_value
+    if kind == "exception":
+        return TypeError("not a rating")
+    if kind == "generator":
+        return (p for p in team)
+    if kind == "bytes":
+        return b"rating"
+    if kind == "frozenset_of_ratings":
+        return frozenset(team)
+    if kind == "range":
+        return range(2)
+    if kind == "module":
+        return sys
+    if kind == "nested_team":
+        return list(team)
     raise ValueError(kind)
 
 
@@ -128,11 +156,16 @@ def _sel_nonlist(kind, n):
         "bytes": bytes(valid),
         "range": range(1, n + 1),
         "True": True,
+        "array": __import__("array").array("d", valid),
+        "deque": __import__("collections").deque(valid),
+        "generator": (v for v in valid),
+        "map": map(float, valid),
+        "dict_values": {i: v for i, v in enumerate(valid)}.values(),
     }[kind]
 
 
 def _sel_elem(kind):
-    return {"str": "1", "None": None, "list": [1], "tuple": (1,), "dict": {1: 1}, "object": object()}[kind]
+    return {"str": "1", "None": None, "list": [1], "tuple": (1,), "dict": {1: 1}, "object": object(), "bytes": b"1", "class": float}[kind]
 
 
 def undo_inplace(teams, saved):
@@ -172,6 +205,12 @@ def build_call(desc, model_name, teams):
             t = None
         elif kind == "generator":
             t = (x for x in t)
+        elif kind == "deque":
+            t = __import__("collections").deque(t)
+        elif kind == "dict_values":
+            t = {i: x for i, x in enumerate(t)}.values()
+        elif kind == "map":
+            t = map(list, t)
         elif kind == "len0":
             t = []
         elif kind == "len1":
@@ -199,6 +238,22 @@ def build_call(desc, model_name, teams):
             t[i] = t[i][0]
         elif kind == "empty":
             t[i] = []
+        elif kind == "deque":
+            t[i] = __import__("collections").deque(t[i])
+        elif kind == "namedtuple":
+            t[i] = __import__("collections").namedtuple("Team", ["p%d" % j for j in range(len(t[i]))])(*t[i])
+        elif kind == "dict_values":
+            t[i] = {j: p for j, p in enumerate(t[i])}.values()
+        elif kind == "map":
+            t[i] = map(lambda p: p, list(t[i]))
+        elif kind == "str1":
+            t[i] = "x"
+        elif kind == "bytes":
+            t[i] = b"\x01"
+        elif kind == "generator":
+            t[i] = (p for p in list(t[i]))
+        elif kind == "set":
+            t[i] = set(t[i])
         else:
             raise ValueError(kind)
     elif arg == "player":
@@ -285,6 +340,11 @@ def wellformed_twins(n):
         ("scores_neg", {"scores": [-3 * i - 1 for i in idx]}),
         ("scores_mixed", {"scores": [(float(i) if i % 2 else i) for i in idx]}),
         ("scores_repeat", {"scores": [i // 2 for i in idx]}),
+        ("ranks_1e308", {"ranks": [1e308 - i * 1e292 for i in idx]}),
+        ("ranks_17_digits", {"ranks": [0.12345678901234567 + i * 1.0000000000000002 for i in idx]}),
+        ("ranks_true_and_one", {"ranks": [[True, 1, 2][i % 3] for i in idx]}),
+        ("scores_sum_to_zero", {"scores": [i - (n - 1) / 2 for i in idx]}),
+        ("scores_strictly_decreasing_floats", {"scores": [100.5 - 0.25 * i for i in idx]}),
         ("ranks_int_float_equal", {"ranks": [[1, 1.0][i % 2] + i // 2 for i in idx]}),
         ("ranks_signed_zeros", {"ranks": [[-0.0, 0.0, 0][i % 3] for i in idx]}),
         ("ranks_2pow63", {"ranks": [2 ** 63 + i for i in idx]}),
